@@ -64,6 +64,8 @@ def check(ctx: Ctx) -> None:
                     ('generate_jakes_samples', {'NSamples'})):
         fn = M.func(FG, q)
         found = False
+        from ..astutil import defaulted_param_aliases
+        ints = set(ints) | {k for k, v in defaulted_param_aliases(fn).items() if v in ints}
         for call, ok, why in time_ranges(fn, ints):
             found = True
             ctx.instance('C14.a', q)
@@ -93,6 +95,9 @@ def check(ctx: Ctx) -> None:
                 for k, v in T.local_terms(M, fn).items():
                     if s.lineno > 0:
                         env.vars[k] = v
+                from ..astutil import defaulted_param_aliases
+                for k, v in defaulted_param_aliases(fn).items():
+                    env.vars[k] = T.Term.sym(v)
                 if isinstance(s, ast.AugAssign) and isinstance(s.op, ast.Add):
                     got = T.Term.sym('self._current_time') + T.from_ast(s.value, env)
                 else:
